@@ -280,8 +280,27 @@ def run_property(prop, tier, seed):
     # thorough tier: the same routines also run when every unit was extracted and proved, as an independent
     # check of the modelling assumptions (ghost terminal, real arithmetic, std helpers) against the real code
     targets = list(undecided_units)
+    # units whose extracted source differs from the pinned tree: the proof decides, and the bounded routines give a
+    # second opinion from the real code (they can only add a violation with a replayable input)
+    changed_units = set()
+    try:
+        with open(os.path.join(ROOT, "specs", "item_baseline.json")) as fh:
+            item_base = json.load(fh)
+    except Exception:
+        item_base = {}
+    for r in results:
+        uname = r.get("unit")
+        unit = unit_objs.get(uname) if uname else None
+        if unit is None or uname in und_names:
+            continue
+        base = item_base.get(uname, {})
+        cur = {"%s::%s" % (e["file"], e["item"]): e.get("norm_sha256_16") for e in unit.extracted}
+        if any(base.get(k) != v for k, v in cur.items()):
+            changed_units.add(uname)
     if tier == "thorough":
         targets += [(r.get("unit"), r) for r in results if r.get("unit") and r.get("unit") not in und_names]
+    else:
+        targets += [(r.get("unit"), r) for r in results if r.get("unit") in changed_units]
     for (uname, r) in targets:
         for (routine, rprops, what) in getattr(reg, "FALLBACK", {}).get(uname, []):
             if prop not in rprops or routine in ran_routines:
@@ -291,13 +310,13 @@ def run_property(prop, tier, seed):
             d = witness.run_routine(routine.split()[0], routine.split()[1:], timeout=900)
             drifted = uname in und_names
             fallback_runs.append({"unit": uname, "routine": routine, "what": what, "found": bool(d.get("found")),
-                                  "why": "unit undecided" if drifted else "thorough tier",
+                                  "why": "unit undecided" if drifted else ("thorough tier" if tier == "thorough" else "extracted source differs from the pinned tree"),
                                   "observed": d.get("clause", d.get("error", ""))})
             if d.get("found"):
                 d["replay_cmd"] = "%s %s" % (witness.BIN, d.get("rerun", "replay " + routine).split(" ", 1)[1])
                 d["note"] = ("the unit could not be extracted (%s); input found by the bounded fallback on the real code" % r.get("reason", "")[:200]) if drifted \
                     else "input found on the real code by the bounded routine of the thorough tier although the contracts verify: a modelling assumption does not hold for this input"
-                fallback_violations.append(("%s/#bounded-%s:%s" % (uname, "fallback" if drifted else "thorough", routine.split()[0]), d, r, what))
+                fallback_violations.append(("%s/#bounded-%s:%s" % (uname, "fallback" if drifted else ("thorough" if tier == "thorough" else "changed"), routine.split()[0]), d, r, what))
 
     # ---------------------------------------------------------------- report
     rc = 0
